@@ -36,6 +36,7 @@ import (
 func init() {
 	register("C04.a", ruleC04a)
 	register("C04.b", ruleC04b)
+	register("C14.p", ruleC14p)
 }
 
 type hunk struct {
@@ -103,44 +104,125 @@ func parseUnifiedDiff(text string) ([]hunk, error) {
 	return hs, nil
 }
 
-// reverseApply undoes the hunks on the patched text (exact match, no fuzz).
-func reverseApply(patched string, hs []hunk) (string, error) {
+// reverseApply undoes the hunks on the patched text. A hunk is first looked
+// for exactly, at its recorded position or shifted (lines were added or
+// removed above it). When the lines the patch added are no longer those of
+// the file — the redact-specific code was edited and the .diff not
+// regenerated — the hunk is located by its leading and trailing context and
+// the whole region between them is replaced by the old side of the hunk.
+// That is sound for what the result is used for: an edit of imported code
+// inside such a region shows up when the fork is compared with the base
+// function by function (C04.a3), an edit outside when the base is compared
+// with the reference (C04.a). The second result lists the stale hunks.
+func reverseApply(patched string, hs []hunk) (string, []string, error) {
 	src := strings.Split(patched, "\n")
 	var out []string
+	var stale []string
 	pos := 0 // index in src (0-based)
+	delta := 0
+	const window = 400
+	matchAt := func(h hunk, start int) bool {
+		p := start
+		if start < pos {
+			return false
+		}
+		for _, l := range h.lines {
+			if l[0] == '-' {
+				continue
+			}
+			if p >= len(src) || src[p] != l[1:] {
+				return false
+			}
+			p++
+		}
+		return true
+	}
+	linesAt := func(ls []string, at int) bool {
+		if at < 0 || at+len(ls) > len(src) {
+			return false
+		}
+		for i, l := range ls {
+			if src[at+i] != l {
+				return false
+			}
+		}
+		return true
+	}
+	offsets := func() []int {
+		o := []int{0}
+		for d := 1; d <= window; d++ {
+			o = append(o, d, -d)
+		}
+		return o
+	}()
 	for i, h := range hs {
 		start := h.newStart - 1
 		if h.newLen == 0 {
 			start = h.newStart
 		}
-		if start < pos || start > len(src) {
-			return "", fmt.Errorf("hunk %d out of order or out of range", i+1)
-		}
-		out = append(out, src[pos:start]...)
-		p := start
+		start += delta
+		var old []string
 		for _, l := range h.lines {
-			body := l[1:]
-			switch l[0] {
-			case ' ', '+':
-				if p >= len(src) || src[p] != body {
-					got := "<eof>"
-					if p < len(src) {
-						got = src[p]
-					}
-					return "", fmt.Errorf("hunk %d (@@ +%d): line %d of the file is %q, the recorded patch says %q", i+1, h.newStart, p+1, strings.TrimSpace(got), strings.TrimSpace(body))
-				}
-				p++
-				if l[0] == ' ' {
-					out = append(out, body)
-				}
-			case '-':
-				out = append(out, body)
+			if l[0] != '+' {
+				old = append(old, l[1:])
 			}
 		}
-		pos = p
+		found := false
+		for _, d := range offsets {
+			if matchAt(h, start+d) {
+				s0 := start + d
+				out = append(out, src[pos:s0]...)
+				out = append(out, old...)
+				pos = s0 + h.newLen
+				delta += d
+				found = true
+				break
+			}
+		}
+		if found {
+			continue
+		}
+		// context anchoring
+		var lead, trail []string
+		for _, l := range h.lines {
+			if l[0] != ' ' {
+				break
+			}
+			lead = append(lead, l[1:])
+		}
+		for j := len(h.lines) - 1; j >= 0 && h.lines[j][0] == ' '; j-- {
+			trail = append([]string{h.lines[j][1:]}, trail...)
+		}
+		if len(lead) == 0 || len(trail) == 0 || len(lead)+len(trail) > len(h.lines) {
+			return "", stale, fmt.Errorf("hunk %d (@@ +%d) does not match the file and has no context on both sides to locate it by", i+1, h.newStart)
+		}
+		for _, d := range offsets {
+			s0 := start + d
+			if s0 < pos || !linesAt(lead, s0) {
+				continue
+			}
+			for j := s0 + len(lead); j <= s0+h.newLen+window && j+len(trail) <= len(src); j++ {
+				if linesAt(trail, j) {
+					end := j + len(trail)
+					out = append(out, src[pos:s0]...)
+					out = append(out, old...)
+					delta += (end - s0) - h.newLen + d
+					pos = end
+					found = true
+					stale = append(stale, fmt.Sprintf("hunk %d (@@ +%d): the lines the recorded patch adds are not those of the file; located by context at line %d", i+1, h.newStart, s0+1))
+					break
+				}
+			}
+			if found {
+				break
+			}
+		}
+		if !found {
+			return "", stale, fmt.Errorf("hunk %d (@@ +%d): neither the hunk nor its context was found in the file — the imported code around it was rewritten", i+1, h.newStart)
+		}
 	}
 	out = append(out, src[pos:]...)
-	return strings.Join(out, "\n"), nil
+	return strings.Join(out, "\n"), stale, nil
 }
 
 var (
@@ -256,12 +338,15 @@ func (c *Ctx) reconstructBase(r *report.Result) map[string]string {
 			r.Fail(construct, "internal/rfmt/"+f+".diff", "recorded patch is not a well-formed unified diff: "+err.Error(), nil, "")
 			continue
 		}
-		orig, err := reverseApply(string(cur), hs)
+		orig, stale, err := reverseApply(string(cur), hs)
 		if err != nil {
-			r.Fail(construct, "internal/rfmt/"+f, "the file is not the import base plus its recorded patch: "+err.Error()+" — generated code was edited by hand (or the patch was not regenerated)", nil, "")
+			r.Fail(construct, "internal/rfmt/"+f, "the file is not the import base plus its recorded patch: "+err.Error(), nil, "")
 			continue
 		}
-		r.Ok(fmt.Sprintf("%s: %d hunks reverse-apply exactly", f, len(hs)))
+		for _, st := range stale {
+			r.Note(f + ".diff is stale, " + st + " (documentation only: the comparison below does not depend on it)")
+		}
+		r.Ok(fmt.Sprintf("%s: %d hunks undone (%d located by context)", f, len(hs), len(stale)))
 		base[f] = orig
 	}
 	// fmtsort is imported verbatim (a header is prepended, nothing patched)
@@ -273,7 +358,8 @@ func (c *Ctx) reconstructBase(r *report.Result) map[string]string {
 	return base
 }
 
-func (c *Ctx) compareWithReference(r *report.Result, base map[string]string, gen evolution) {
+// only, when non-nil, restricts the comparison to the functions it accepts.
+func (c *Ctx) compareWithReference(r *report.Result, base map[string]string, gen evolution, only ...func(string) bool) {
 	refs, _ := filepath.Glob(filepath.Join(c.oracleDir(), "go*"))
 	sort.Strings(refs)
 	if len(refs) == 0 {
@@ -318,6 +404,9 @@ func (c *Ctx) compareWithReference(r *report.Result, base map[string]string, gen
 		}
 		sort.Strings(keys)
 		for _, k := range keys {
+			if len(only) > 0 && only[0] != nil && !only[0](k) {
+				continue
+			}
 			construct := "fmt " + f + " / " + k
 			okAny := false
 			why := ""
@@ -347,7 +436,26 @@ func (c *Ctx) compareWithReference(r *report.Result, base map[string]string, gen
 					break
 				}
 				if why == "" || len(d) < 6 {
-					why = fmt.Sprintf("differs from %s's fmt beyond the recorded upstream evolution: %s", rd.name, strings.Join(firstN(d, 4), " | "))
+					// show what is beyond the recorded evolution
+					rec := map[string]int{}
+					for _, l := range rd.evo[k] {
+						rec[l]++
+					}
+					var beyond []string
+					for _, l := range d {
+						if rec[l] > 0 {
+							rec[l]--
+						} else {
+							beyond = append(beyond, l)
+						}
+					}
+					for l, n := range rec {
+						if n > 0 {
+							beyond = append(beyond, "(recorded evolution line no longer present: "+l+")")
+						}
+					}
+					sort.Strings(beyond)
+					why = fmt.Sprintf("differs from %s's fmt beyond the recorded upstream evolution ('-' import base, '+' reference): %s", rd.name, strings.Join(firstN(beyond, 4), " | "))
 				}
 			}
 			path := "internal/rfmt/" + f
@@ -386,6 +494,27 @@ func ruleC04a(c *Ctx) []*report.Result {
 	r := report.NewResult("C04.a", "print.go and format.go are exactly the import base plus the recorded patch (reverse-applying the shipped .diff succeeds with no fuzz), fmtsort/sort.go is imported verbatim, and every function of the (reconstructed) import base equals the function of the same name in the standard library's fmt (reference sources under checker/oracle), textually after dropping comments and trivial renamings, or differs from it exactly by the recorded upstream evolution of that function", 60)
 	base := c.reconstructBase(r)
 	c.compareWithReference(r, base, nil)
+	r.Analysed = fmt.Sprintf("references: %s", c.oracleDir())
+	return []*report.Result{r}
+}
+
+// directiveParser: the functions of fmt that turn a format string into the
+// flag/width/precision state a Formatter sees, and the accessors of that state.
+var directiveParser = map[string]bool{
+	"*pp.doPrintf": true, "parsenum": true, "intFromArg": true, "*pp.argNumber": true, "parseArgNumber": true,
+	"tooLarge": true, "*pp.Flag": true, "*pp.Width": true, "*pp.Precision": true, "*fmt.clearflags": true, "*fmt.init": true,
+}
+
+// ruleC14p: what MakeFormat reproduces is the state left by fmt's directive
+// parser; the round trip closes only if the fork's parser is that parser.
+func ruleC14p(c *Ctx) []*report.Result {
+	r := report.NewResult("C14.p", "the directive parser of the fork (doPrintf's flag/width/precision scanning, parsenum, intFromArg, argNumber, parseArgNumber, tooLarge, clearflags, init and the Flag/Width/Precision accessors) is, in the import base, the standard library's (Engine C restricted to these functions): a directive rebuilt by MakeFormat is parsed back into the state it was built from, by the library's own printer as by fmt's", 9)
+	tmp := report.NewResult("x", "", 0)
+	base := c.reconstructBase(tmp)
+	for _, f := range tmp.Findings {
+		r.Fail(f.Construct, f.Pos, f.Msg, nil, "")
+	}
+	c.compareWithReference(r, base, nil, func(k string) bool { return directiveParser[k] })
 	r.Analysed = fmt.Sprintf("references: %s", c.oracleDir())
 	return []*report.Result{r}
 }
